@@ -20,7 +20,8 @@ PROP = dict(
     modules=["CG.Props.C05"],
     required_theorems=[f"C05_{t}_{k}" for t in _TYPES for k in ("dec_enc", "size_exact", "enc_eq_spec", "fixpoint")]
                       + ["C05_message_dec_enc", "C05_message_enc_eq_spec", "C05_header_consistent", "C05_message_fixpoint",
-                         "C05_message_write_total", "C05_command_is_padded_name", "C05_var_int_size_classes"],
+                         "C05_message_write_total", "C05_command_is_padded_name", "C05_var_int_size_classes",
+                         "C05_cmpctblock_validate_no_panic"],
     rule="c05.enc: a generated value of every Message variant (32 kinds; addrv2 through Message::read of the harness's own "
          "reference encoding) under each of the 5 distinct network magics -> Message::write bytes, Payload::size, Message::read "
          "back; c05.penc: the same through T::write / T::read / size() for 30 payload types incl. var_int and MessageHeader; "
